@@ -59,6 +59,7 @@ def h_history(ctx, k, form, nnames, kind):
     init = [{}, {}]
     init[0][names[0]] = _kind_value(ctx, kind, "i0")
     init[0]["second"] = ctx.int("i1", 3)
+    init[0]["_reserved"] = ctx.int("i3", 3)
     init[1][names[-1]] = ctx.int("i2", 3)
     if form == "dict":
         enums = [Enum(dict(init[0])), Enum(dict(init[1]))]
